@@ -4,7 +4,9 @@
 // directory and everything next to it is snapshotted before and after every request, the
 // store is wrapped in a call recorder, and the four clauses of the statement are judged per
 // request (see judge). Files: world_test.go (scratch tree, snapshots), gen_test.go (request
-// grammar, generator), drive_test.go (direct / real-server drivers, recorders).
+// grammar, generator), drive_test.go (direct / real-server drivers, recorders),
+// clicase_test.go + cli_test.go (the same requests and clauses against a real
+// `desync chunk-server|index-server` process; only with $VERIF_DESYNC_BIN).
 package c15
 
 import (
